@@ -365,3 +365,18 @@ def build_lmclient(ctx, san="address", wraps=(), extra_src=()):
     if rc != 0:
         return None, err[-3000:]
     return exe, ""
+
+
+def decode_undeliverable(path, cred, uid=None, gid=None, retry=0, settle=0.08):
+    """Send a DEC_REQ from a client that has shut down its receiving side: munged processes the request but its
+    m_msg_send fails (EPIPE).  Returns nothing."""
+    body = dec_req_body(cred)
+    s = connect_as(path, uid, gid)
+    try:
+        s.shutdown(socket.SHUT_RD)
+        s.sendall(hdr(T_DEC_REQ, retry, len(body)) + body)
+        time.sleep(settle)
+    except OSError:
+        pass
+    finally:
+        s.close()
